@@ -428,6 +428,17 @@ pub fn run(cfg: &Cfg) {
             }
         }
     }
+    // ---- every input of one byte, and of two bytes (quick tier: every first byte with a few second bytes): what a decoder
+    // looks at before it has checked how much there is
+    for a in ["gzip:-", "zlib:-", "zstd:-", "lz4:-", "brg:-"] {
+        one(&mut out, &["dcp", a, "-"]);
+        for x in 0..=255u8 {
+            out.stat("dcp_short");
+            one(&mut out, &["dcp", a, &hx(&[x])]);
+            if cfg.tier == Tier::Thorough { for y in 0..=255u8 { one(&mut out, &["dcp", a, &hx(&[x, y])]); } }
+            else { for y in [0x00u8, 0x01, 0x7f, 0x80, 0xff, x] { one(&mut out, &["dcp", a, &hx(&[x, y])]); } }
+        }
+    }
     // ---- crafted frame headers: every descriptor byte, with size fields that declare far more than is present
     for a in ["gzip:-", "zlib:-", "zstd:-", "lz4:-", "brg:-"] {
         for z in crafted_headers(a, cfg.tier == Tier::Thorough) {
